@@ -99,6 +99,11 @@ M = [
     ("C17", "warc_parallel emits without holding the mutex", "break", "preprocess/warc_parallel_main.cc",
      "    while (reader.Read(str)) {\n      std::lock_guard<std::mutex> guard(*out_mutex);\n      *out << str;\n    }\n  }\n}",
      "    while (reader.Read(str)) {\n      *out << str;\n    }\n  }\n}"),
+    ("C17", "seeded C16-n1: Join queues its end markers with ProduceSwap", "break", "preprocess/warc_parallel_main.cc",
+     "        in_.Produce(str);", "        in_.ProduceSwap(str);"),
+    ("C17", "harmless: unique_lock instead of lock_guard in the plain branch", "harmless", "preprocess/warc_parallel_main.cc",
+     "    while (reader.Read(str)) {\n      std::lock_guard<std::mutex> guard(*out_mutex);\n      *out << str;",
+     "    while (reader.Read(str)) {\n      std::unique_lock<std::mutex> guard(*out_mutex);\n      *out << str;"),
     ("C17", "ReadMore treats end of file inside a header as a clean end", "break", "preprocess/warc.cc",
      "    UTIL_THROW_IF(had, util::EndOfFileException, \"Unexpected end of file inside header\");\n", ""),
     ("C17", "overhang_ not cleared after the swap", "break", "preprocess/warc.cc",
